@@ -268,7 +268,7 @@ C12F = [G + "c12_client.go"] + CLIP
 
 def c12run(name, multi, pq, pt):
     return {"name": name, "files": C12F, "fn": "VerifH_C12_client", "workers": 16, "params": {"MULTI": multi}, "preempt_quick": pq, "preempt_thorough": pt,
-            "reach": ["wait-yielded", "eos", "end"], "budget_quick": 900, "budget_thorough": 7200, "native": False}
+            "reach": ["wait-yielded", "eos", "end"], "budget_quick": 900, "budget_thorough": 7200, "replay_timeout": 120}
 
 
 CHECKS["C12"] = {
@@ -280,4 +280,30 @@ CHECKS["C12"] = {
     "assumptions": CHECKS["C10"]["assumptions"] + ["net/http replaced by a scripted responder (goroutines inside net/http are outside the model)", "cooperative scheduler + bounded symbolic preemption at synchronisation points"],
     "outside": ["MPEG-TS processors", "live playlists and pacing sleeps (time.After fires immediately)", "goroutines inside net/http"],
     "runs": [c12run("conc.client.media", 0, 1, 2), c12run("conc.client.multivariant", 1, 1, 2)],
+}
+
+C09F = [G + "c09_cosim.go", G + "c12_client.go"] + CLIP + [G + "mux_stub_findcompat.go"]
+
+
+def c09run(name, tracks, kq, kt, **extra):
+    r = {"name": name, "files": C09F, "fn": "VerifH_C09_cosim", "workers": 16, "params": {"VARIANT": 2, "TRACKS": tracks}, "params_quick": {"K": kq}, "params_thorough": {"K": kt},
+         "reach": ["three-segments", "client-done", "unit-compared"], "budget_quick": 900, "budget_thorough": 7200, "replay_timeout": 120}
+    r["params"].update(extra)
+    return r
+
+
+CHECKS["C09"] = {
+    "technique": "co-simulation: K symbolic writes into the real fMP4 Muxer, then the whole real Client runs as engine threads with its HTTP requests answered by the real Muxer.Handle; "
+                 "lemma: checkSupport accepts every codec string codecparams.Marshal produces for the codecs Start accepts",
+    "bounds": {"quick": {"cosim": "fMP4, H264 video, K=5 writes (IDR / non-IDR / IDR with changed PPS), symbolic DTS deltas and SegmentMinDuration, client attached after the writes",
+                         "lemma.codecs": "H264, H265, AV1, VP9 (profile 0..3, depth 8..12), MPEG-4 audio (object type 1..42), Opus"},
+               "thorough": {"cosim": "K=6; video + audio rendition K=6; AbsoluteTime run with symbolic origin and tabled frame durations"}},
+    "assumptions": MUX_STUBS + CHECKS["C10"]["assumptions"] + ["the two wire formats (playlist text, fMP4 bytes) are lossless transports (C14 + mediacommon)"],
+    "outside": ["MPEG-TS and Low-Latency variants end to end", "client attached while the writer is running", "real HTTP and pacing"],
+    "runs": [
+        {"name": "lemma.codecs", "files": C09F, "fn": "VerifH_C09_codecs", "workers": 8, "reach": ["marshalled"]},
+        c09run("cosim.fmp4.video", 0, 5, 6),
+        dict(c09run("cosim.fmp4.video+audio", 1, 6, 6), thorough_only=True),
+        dict(c09run("cosim.fmp4.abstime", 0, 5, 5, ABSTIME=1, CONCRETE=2, SYMSEGMIN=0, SEGMIN_MS=30, VKINDS=2), thorough_only=True, qtimeout=120000),
+    ],
 }
